@@ -20,11 +20,21 @@ def labels_coq(labels):
     return vlib.Raw("[" + "; ".join(labels) + "]")
 
 
-def report_oracle(report, all_covs_by_path):
-    """the CLI's report must be the C01 aggregate of what each artifact says, one record per file"""
+def agg_covered(agg):
+    """filter.rs is_covered on a reference aggregate"""
+    if not any(n != 0 for _, n in agg["lines"]):
+        return False
+    return len(agg["funcs"]) <= 1 or any(ex and bytes.fromhex(n) != b"top-level" for n, (_, ex) in agg["funcs"].items())
+
+
+def report_oracle(report, all_covs_by_path, flt=None):
+    """the CLI's report must be the C01 aggregate of what each artifact says, one record per file
+    (flt = 'covered' / 'uncovered': only the files whose aggregate has that status)"""
     for p, secs in report.items():
         if len(secs) != 1:
             return "file %r reported %d times" % (p, len(secs))
+    if flt:
+        all_covs_by_path = {p: cs for p, cs in all_covs_by_path.items() if agg_covered(gen.ref_agg(cs)) == (flt == "covered")}
     want = set(all_covs_by_path)
     got = set(report)
     if want != got:
@@ -60,6 +70,7 @@ def one_scenario(chk, idx, branch):
     batches = [[[n, gen.cov_canon(c)] for n, c in r["ok"]] if "ok" in r else None for r in parsed]
     key_batch = {pipeline.content_key(b): bt for b, bt in zip(blobs, batches)}
     extra = []
+    flt = None
     # JaCoCo reports and LLVM gcno+gcda pairs go through the same queue (other item kinds, other parsers)
     if rng.random() < 0.4:
         import c06
@@ -79,14 +90,25 @@ def one_scenario(chk, idx, branch):
         os.makedirs(gd, exist_ok=True)
         stems = rng.sample(["file", "file_branch", "reader"], rng.randrange(1, 4))
         gc = []
+        # sometimes one unit was never run (a gcno without gcda: it contributes its lines with zero counts), and the
+        # run asks for the covered or the uncovered files only: every discovered artifact still counts
+        orphan = rng.choice(stems) if rng.random() < 0.5 else None
         for st in stems:
             gn = open(os.path.join(vlib.REPO, "test", "llvm", st + ".gcno"), "rb").read()
             gda = open(os.path.join(vlib.REPO, "test", "llvm", st + ".gcda"), "rb").read()
             open(os.path.join(gd, st + ".gcno"), "wb").write(gn)
-            open(os.path.join(gd, st + ".gcda"), "wb").write(gda)
-            gc.append({"gcno": gn.hex(), "gcdas": [gda.hex()], "branch": branch, "stem": st})
+            if st != orphan:
+                open(os.path.join(gd, st + ".gcda"), "wb").write(gda)
+            gc.append({"gcno": gn.hex(), "gcdas": [gda.hex()] if st != orphan else [], "branch": branch, "stem": st})
         args.append(gd)
-        extra = ["--llvm"]
+        extra = ["--llvm"] if rng.random() < 0.7 else []
+        if rng.random() < 0.5:
+            flt = rng.choice(["uncovered", "uncovered", "covered"])
+            extra += ["--filter", flt]
+            if flt == "covered" and orphan:
+                # only covered files were requested: the producer does not send the orphan unit at all
+                gc = [g for g in gc if g["stem"] != orphan]
+                stems = [st for st in stems if st != orphan]
         pg = vlib.run_impl("gcno", gc, chk.pid)
         for st, r in zip(stems, pg):
             bt = [[n, gen.cov_canon(c)] for n, c in r["ok"]] if "ok" in r else None
@@ -114,12 +136,12 @@ def one_scenario(chk, idx, branch):
         rc, out, err = pipeline.run_cli(a, threads, branch, log=log, sched=sched, cwd=root, extra=extra)
         chk.count()
         hist = {"inputs": [b.decode() for b in blobs], "args": [os.path.relpath(x, root) for x in a], "threads": threads,
-                "branch": branch, "sched_seed": sched}
+                "branch": branch, "sched_seed": sched, "options": extra}
         if rc != 0:
             chk.violation(dict(hist, kind="oracle", clause="run must finish with status 0", status=rc, stderr=err[-800:]), tag="run")
             continue
         report = pipeline.read_lcov_report(out)
-        why = report_oracle(report, expected)
+        why = report_oracle(report, expected, flt)
         if why:
             chk.violation(dict(hist, kind="oracle", clause="report = aggregation of every artifact exactly once: " + why,
                                report=out.decode("latin-1")[:3000]), tag="run")
@@ -134,7 +156,7 @@ def one_scenario(chk, idx, branch):
                                log=open(log).read()[-3000:]), tag="trace")
             continue
         items = coq_items([key_batch[kk] for kk in order], [0] * len(order))
-        chk._pending.append((hist, threads, items, labels, report, [key_batch[kk] for kk in order]))
+        chk._pending.append((hist, threads, items, labels, report, [key_batch[kk] for kk in order], flt))
         chk.nontrivial(["run", idx, run_no, k, threads])
     # independence of N, interleaving, argument order: all reports observably equal
     for r in reports[1:]:
@@ -148,10 +170,10 @@ def one_scenario(chk, idx, branch):
 
 def validate_traces(chk):
     pend = chk._pending
-    exprs = [vlib.app("run_pipeline", t, 2 * t, False, items, labels_coq(labels)) for _, t, items, labels, _, _ in pend]
+    exprs = [vlib.app("run_pipeline", t, 2 * t, False, items, labels_coq(labels)) for _, t, items, labels, _, _, _ in pend]
     res = vlib.run_model(chk.pid, "Run.Show", exprs, shard_size=12)
     ok_n = 0
-    for (hist, t, items, labels, report, batches), r in zip(pend, res):
+    for (hist, t, items, labels, report, batches, flt), r in zip(pend, res):
         if isinstance(r, tuple) and r and r[0] == "@@ERROR":
             chk.violation(dict(hist, kind="correspondence", model=r), has_input=False, tag="trace")
             continue
@@ -165,6 +187,10 @@ def validate_traces(chk):
             why = "merged+rejected is not exactly the item set"
         else:
             macc = {bytes(n): gen.cov_from_coq(c) for n, c in acc}
+            if flt:
+                # the model's map is what the workers accumulated; --filter is applied to it afterwards
+                macc = {p: c for p, c in macc.items()
+                        if agg_covered({"lines": c["lines"], "funcs": {f[0]: (f[1], f[2]) for f in c["funcs"]}}) == (flt == "covered")}
             if set(macc) != set(report):
                 why = "model map has other files than the report"
             else:
@@ -183,14 +209,14 @@ def validate_traces(chk):
 def run(chk):
     chk.proofs()
     chk._pending = []
-    n = 30 if chk.tier == "quick" else 400
+    n = 50 if chk.tier == "quick" else 500
     sizes = []
     for i in range(n):
         sizes.append(one_scenario(chk, i, branch=(i % 3 != 0)))
     okn = validate_traces(chk)
     chk.cov["traces_validated_against_impl"] = okn
     chk.extra["distribution"] = {"scenarios": n, "artifact_counts": sizes, "runs": chk.cov["evaluations"]}
-    chk.cov["rule"] = ("scenarios of 1-20 unique lcov artifacts (plus, in 40% of them, 1-3 JaCoCo reports and/or 1-3 LLVM gcno+gcda pairs with --llvm) spread over directories, nested directories, a zip and plain arguments, in a third of the scenarios with 1-4 of them malformed (rejected whole), sometimes with one plain argument listed twice; each scenario run 3 times with "
+    chk.cov["rule"] = ("scenarios of 1-20 unique lcov artifacts (plus, in 40% of them, 1-3 JaCoCo reports and/or 1-3 LLVM gcno files with --llvm or auto-detected, one of them sometimes without gcda, sometimes with --filter covered / uncovered) spread over directories, nested directories, a zip and plain arguments, in a third of the scenarios with 1-4 of them malformed (rejected whole), sometimes with one plain argument listed twice; each scenario run 3 times with "
                        "different --threads (1..16), shuffled argument order and a schedule-perturbation seed; every run: (a) the lcov report decoded by an independent "
                        "reader must be the C01 aggregate of the per-artifact parse results (each artifact alone through the harness), one record per file; (b) the "
                        "per-thread hook event log is scheduled into a label sequence which Coq replays through Model/Pipeline.v (vm_compute): it must be an execution "
